@@ -235,6 +235,21 @@ func (m *Mux) serve(w *ResponseWriter, req *Request) {
 		return
 	}
 	w.logger.Error("no matching handler found for request and returning internal error", "op", op, "connID", w.connID, "requestID", w.requestID, "routeOp", req.routeOp)
-	resp := req.NewResponse(WithResponseCode(ResultUnwillingToPerform), WithDiagnosticMessage("No matching handler found"))
+	// answer with the response type that belongs to the request's operation,
+	// so the client recognises it as the final response to its request.
+	appCode := ApplicationExtendedResponse
+	switch req.routeOp {
+	case bindRouteOperation:
+		appCode = ApplicationBindResponse
+	case searchRouteOperation:
+		appCode = ApplicationSearchResultDone
+	case modifyRouteOperation:
+		appCode = ApplicationModifyResponse
+	case addRouteOperation:
+		appCode = ApplicationAddResponse
+	case deleteRouteOperation:
+		appCode = ApplicationDelResponse
+	}
+	resp := req.NewResponse(WithApplicationCode(appCode), WithResponseCode(ResultUnwillingToPerform), WithDiagnosticMessage("No matching handler found"))
 	_ = w.Write(resp)
 }
